@@ -113,6 +113,11 @@ theorem lexAll_terminates {modes : Array Mode} (hwf : WFModes modes) (inp : Inpu
     lexAll_progress hwf inp fuel hfuel n {} [] (inRange_init hwf) rfl (Nat.zero_le _) (by simpa using hn)
   exact ⟨ts, p, by simpa using e, h⟩
 
+/-- Whatever the fuel, a run on a well-formed table never ends in a Go panic. -/
+theorem lexAll_never_panics {modes : Array Mode} (hwf : WFModes modes) (inp : Input)
+    (fuel n : Nat) : (lexAll modes inp fuel n {} []).2 ≠ "panic" :=
+  lexAll_no_panic hwf inp fuel n {} [] (inRange_init hwf)
+
 /-- The driver op `lex.run f` calls `lexAll … f f`: any `f > 2 · inp.size` is enough. -/
 theorem lexAll_terminates_drv {modes : Array Mode} (hwf : WFModes modes) (inp : Input)
     (f : Nat) (hf : 2 * inp.size < f) : (lexAll modes inp f f {} []).2 = "ok" := by
@@ -132,8 +137,208 @@ example : wfModes exModes = true := by decide
 example : WFModes exModes := by decide
 example : InRange exModes ({} : SM) := inRange_init (by decide)
 
+/-- The hypotheses of `bsearch_is_lookup` on the row of state 0 of mode 0. -/
+example : readTriples exModes[0]! 3 7 = some [(32, 32, 1), (34, 34, 2), (97, 97, 3)] ∧
+    sortedFrom (-1) [(32, 32, 1), (34, 34, 2), (97, 97, 3)] = true := by decide
+
 /-- `a "bc"` lexes to `A`, `STR` (text `"bc"`, the two fragments accumulated), EOF. -/
 example : lexAll exModes #[(97, 1), (32, 1), (34, 1), (98, 1), (99, 1), (34, 1)] 20 20 {} []
     = ([.tok 2 0 1, .tok 3 2 6, .eof 6], "ok") := by decide
+
+/-! ## Conservation: every byte is in exactly one segment -/
+
+/-- **Erasure**: the ghost-instrumented driver computes what the plain driver computes. -/
+theorem ghost_erase (modes : Array Mode) (inp : Input) (fuel n : Nat) (l : Lx) (acc : List Tok)
+    (g : List Ev) :
+    ((lexAllG modes inp fuel n l acc g).1, (lexAllG modes inp fuel n l acc g).2.1)
+      = lexAll modes inp fuel n l acc ∧
+    (readTokenG modes inp fuel none l g).map (fun x => (x.1, x.2.1))
+      = readToken modes inp fuel none l :=
+  ⟨lexAllG_erase modes inp fuel n l acc g, readTokenG_erase modes inp fuel none l g⟩
+
+/-- **Conservation for any table** (no well-formedness needed): whenever a run on a valid input
+reaches EOF, the logged segments – text of an emitted token (`tok`), text dropped by `@discard`
+(`discarded`), stretch of an ERROR token (`error`), text still pending when EOF was returned
+(`pending`) – are contiguous and in order, start at byte 0 and end at the byte length of the
+input; the tokens handed to the caller are exactly the reports of the segments, in order: a `tok`
+segment is the token with that text, an `error` segment the ERROR token positioned at its start,
+the `pending` segment only yields the EOF token positioned at its start, and a `discarded` one
+yields nothing. So `pending` is the only kind whose text is reported by nothing although no
+`@discard` rule dropped it (known finding K5). -/
+theorem conservation_any_table (modes : Array Mode) (inp : Input) (hv : ValidInput inp)
+    (fuel n : Nat) (toks : List Tok) (log : List Ev)
+    (h : lexAllG modes inp fuel n {} [] [] = (toks, "ok", log)) :
+    Contig (segsOf log) 0 (totalBytes inp) ∧ (segsOf log).filterMap Seg.report = toks :=
+  lexAllG_conservation modes inp hv fuel n toks log h
+
+/-- **Conservation (C11).** On a well-formed table, for every valid input and enough fuel, the
+run reaches EOF (`"ok"`), its tokens are those of `lexAll`, and the segments partition the input
+as in `conservation_any_table`. -/
+theorem conservation {modes : Array Mode} (hwf : WFModes modes) (inp : Input) (hv : ValidInput inp)
+    (fuel n : Nat) (hfuel : 2 * inp.size < fuel) (hn : inp.size < n) :
+    ∃ toks log, lexAllG modes inp fuel n {} [] [] = (toks, "ok", log) ∧
+      lexAll modes inp fuel n {} [] = (toks, "ok") ∧
+      Contig (segsOf log) 0 (totalBytes inp) ∧
+      (segsOf log).filterMap Seg.report = toks := by
+  obtain ⟨ts, p, e, _⟩ := lexAll_terminates hwf inp fuel n hfuel hn
+  have he := lexAllG_erase modes inp fuel n {} [] []
+  rw [e] at he
+  generalize hr : lexAllG modes inp fuel n {} [] [] = r at he
+  obtain ⟨toks, status, log⟩ := r
+  simp only [Prod.mk.injEq] at he
+  obtain ⟨h1, h2⟩ := he
+  subst h1 h2
+  obtain ⟨c1, c2⟩ := lexAllG_conservation modes inp hv fuel n _ log hr
+  exact ⟨_, log, rfl, e, c1, c2⟩
+
+/-- Contiguous segments read as text: concatenating the stretches gives back the input bytes. -/
+theorem segments_concat {α : Type} (bytes : List α) (inp : Input) (segs : List Seg)
+    (hlen : bytes.length = totalBytes inp) (h : Contig segs 0 (totalBytes inp)) :
+    (segs.map fun s => (bytes.drop s.start).take (s.stop - s.start)).flatten = bytes := by
+  rw [contig_concat bytes h]
+  simp [← hlen]
+
+/-- … and every byte offset of the input lies in exactly one segment. -/
+theorem segments_each_byte_once (inp : Input) (segs : List Seg)
+    (h : Contig segs 0 (totalBytes inp)) (x : Nat) (hx : x < totalBytes inp) :
+    (segs.filter fun s => decide (s.start ≤ x ∧ x < s.stop)).length = 1 :=
+  contig_unique h x (Nat.zero_le _) hx
+
+/-- **The stretch of an ERROR token**: the driver resumes just after the first `'\n'` at or after
+the offending rune (index `l.idx`), or at the end of the input if there is none – what the
+`for l.char != '\n' && l.char != -1 { consume }; consume` loop of `ReadToken` does. The `error`
+segment logged by `readTokenG` runs from the token start to the byte offset of that position. -/
+theorem error_stretch (inp : Input) (hv : ValidInput inp) (l : Lx) (hidx : l.idx ≤ inp.size) :
+    ∃ k, l.idx ≤ k ∧ k ≤ inp.size ∧
+      (∀ j, l.idx ≤ j → j < k → ∃ p, inp[j]? = some p ∧ p.1 ≠ 10) ∧
+      (k = inp.size ∨ ∃ p, inp[k]? = some p ∧ p.1 = 10) ∧
+      (afterError inp l).idx = min (k + 1) inp.size :=
+  afterError_spec inp hv l hidx
+
+/-- When `PushRune` answers `_lexerError`, `readToken` returns the ERROR token positioned at the
+token start and carrying the offending rune, and continues from `afterError`. -/
+theorem readToken_on_error (modes : Array Mode) (inp : Input) (n : Nat) (start : Option Nat)
+    (l : Lx) (sm' : SM) (h : pushRune modes l.sm (l.char inp) = (.error, sm')) :
+    readToken modes inp (n + 1) start l
+      = some (some (.err (start.getD l.offset) (l.char inp)), afterError inp { l with sm := sm' }) :=
+  readToken_error modes inp n start l sm' h
+
+/-- **Complement of K5**: if no row carries an accumulate pair (the specification has no
+action-less `@frag`), every `pending` segment of every run is empty – nothing is dropped
+unreported. -/
+theorem no_pending_text {modes : Array Mode} (hwf : WFModes modes) (hna : NoAccum modes)
+    (inp : Input) (fuel n : Nat) :
+    ∀ s ∈ segsOf (lexAllG modes inp fuel n {} [] []).2.2, s.kind = .pending → s.start = s.stop :=
+  lexAllG_pending hwf hna inp fuel n {} [] [] (inRange_init hwf) (by simp)
+
+theorem noAccum_sound (modes : Array Mode) : noAccum modes = true ↔ NoAccum modes :=
+  noAccum_iff modes
+
+/-- Non-vacuity of `conservation` / `no_pending_text`: the run of `exModes` on `a "bc"`. -/
+example : segsOf (lexAllG exModes #[(97, 1), (32, 1), (34, 1), (98, 1), (99, 1), (34, 1)] 20 20 {} [] []).2.2
+    = [⟨.tok 2, 0, 1⟩, ⟨.discarded, 1, 2⟩, ⟨.tok 3, 2, 6⟩, ⟨.pending, 6, 6⟩] := by decide
+
+example : ValidInput #[(97, 1), (32, 1), (34, 1), (98, 1), (99, 1), (34, 1)] := by
+  intro p hp; simp at hp; rcases hp with h | h | h | h | h | h <;> subst h <;> decide
+
+/-- A two-mode table without accumulate pairs (`A = 'a'`, `@frag ' '+ @discard`,
+`@frag '<' @push_mode(M) @discard`, `@mode M { B = 'b'  @frag '>' @discard @pop_mode }`): the
+hypotheses of `no_pending_text` hold together. -/
+def exNoAccum : Array Mode := #[
+  #[4, 16, 23, 31, 11, 0, 3, 32, 32, 2, 60, 60, 1, 97, 97, 3, 6, 0, 0, 1, 1, 4, 0, 7, 0, 1, 32, 32,
+    2, 4, 0, 4, 0, 0, 3, 2],
+  #[3, 12, 19, 8, 0, 2, 62, 62, 1, 98, 98, 2, 6, 0, 0, 2, 0, 4, 0, 4, 0, 0, 3, 3]]
+
+example : WFModes exNoAccum ∧ NoAccum exNoAccum :=
+  ⟨by decide, (noAccum_iff _).1 (by decide)⟩
+
+/-! ## Negative witnesses (known findings) -/
+
+/-- K3, token rule: `A = 'a'*` (table emitted by lox). State 0 is accepting. -/
+def k3Tok : Array Mode := #[#[2, 2, 7, 0, 1, 97, 97, 1, 3, 2]]
+
+/-- K3, action-less fragment: `B = 'b'`, `@frag 'x'*`. -/
+def k3Frag : Array Mode :=
+  #[#[3, 14, 22, 10, 0, 2, 98, 98, 2, 120, 120, 1, 5, 0, 7, 0, 1, 120, 120, 1, 5, 0, 4, 0, 0, 3, 2]]
+
+/-- K5: `B = 'b'`, `@frag 'x'`. -/
+def k5 : Array Mode :=
+  #[#[3, 12, 17, 8, 0, 2, 98, 98, 2, 120, 120, 1, 4, 0, 0, 5, 0, 4, 0, 0, 3, 2]]
+
+example : wfModes k3Tok = false := by decide
+example : wfModes k3Frag = false := by decide
+example : wfModes k5 = true ∧ noAccum k5 = false := by decide
+
+/-- K3 (token rule), input `aab`: after `A "aa"` the lexer returns the empty token `A ""` at `b`
+forever – `lexAll` never reaches EOF, for **every** fuel (≥ 3 per call) and every number of calls. -/
+theorem k3_token_never_eof (fuel n : Nat) (hf : 3 ≤ fuel) :
+    (lexAll k3Tok #[(97, 1), (97, 1), (98, 1)] fuel n {} []).2 = "timeout" := by
+  obtain ⟨f, rfl⟩ : ∃ f, fuel = f + 3 := ⟨fuel - 3, by omega⟩
+  -- the state after the first token: a fixed point of `readToken`
+  have hfix : ∀ (k : Nat) (acc : List Tok),
+      (lexAll k3Tok #[(97, 1), (97, 1), (98, 1)] (f + 3) k
+        { sm := { token := 2, state := 0, mode := some 0, modeStack := [] }, idx := 2, offset := 2 }
+        acc).2 = "timeout" := by
+    intro k
+    induction k with
+    | zero => intro acc; rfl
+    | succ k ih =>
+      intro acc
+      unfold lexAll
+      rw [readToken_accept k3Tok _ (f + 2) none _
+        { token := 2, state := 0, mode := some 0, modeStack := [] } (by decide)]
+      exact ih _
+  cases n with
+  | zero => rfl
+  | succ n =>
+    unfold lexAll
+    rw [readToken_consume k3Tok _ (f + 2) none _
+        { token := 0, state := 1, mode := some 0, modeStack := [] } (by decide),
+      readToken_consume k3Tok _ (f + 1) _ _
+        { token := 0, state := 1, mode := some 0, modeStack := [] } (by decide),
+      readToken_accept k3Tok _ f _ _
+        { token := 2, state := 0, mode := some 0, modeStack := [] } (by decide)]
+    exact hfix n _
+
+/-- K3 (action-less fragment matching ε), input `ab`: the first `ReadToken` call answers
+`_lexerTryAgain` forever – it does not return for any fuel. -/
+theorem k3_frag_hangs (fuel n : Nat) :
+    (lexAll k3Frag #[(97, 1), (98, 1)] fuel n {} []).2 = "timeout" := by
+  have hloop : ∀ (k : Nat) (start : Option Nat) (sm : SM), sm.state = 0 → sm.modeStack = [] →
+      sm.mode.getD 0 = 0 →
+      readToken k3Frag #[(97, 1), (98, 1)] k start { sm := sm, idx := 0, offset := 0 } = none := by
+    intro k
+    induction k with
+    | zero => intro _ _ _ _ _; rfl
+    | succ k ih =>
+      intro start sm h0 h1 h2
+      have hp : pushRune k3Frag sm 97 = (.tryAgain, { sm with mode := some 0 }) := by
+        obtain ⟨tok, st, mo, stk⟩ := sm
+        simp only at h0 h1 h2
+        subst h0 h1
+        cases mo with
+        | none => rfl
+        | some m => simp only [Option.getD_some] at h2; subst h2; rfl
+      rw [readToken_tryAgain k3Frag _ k start _ _ hp]
+      exact ih _ _ h0 h1 rfl
+  cases n with
+  | zero => rfl
+  | succ n =>
+    unfold lexAll
+    rw [hloop fuel none {} rfl rfl rfl]
+
+/-- The same two runs at the fuel used by the driver op (`lex.run 1000`). -/
+example : (lexAll k3Tok #[(97, 1), (97, 1), (98, 1)] 1000 1000 {} []).2 = "timeout" :=
+  k3_token_never_eof 1000 1000 (by decide)
+example : (lexAll k3Frag #[(97, 1), (98, 1)] 1000 1000 {} []).2 = "timeout" :=
+  k3_frag_hangs 1000 1000
+
+/-- K5, input `bxx`: the two `x` are accumulated, then EOF is returned at position 1; no token
+covers bytes 1–2 and no error is reported. In the ghost log they form a non-empty `pending`
+segment. -/
+example : lexAll k5 #[(98, 1), (120, 1), (120, 1)] 10 10 {} [] = ([.tok 2 0 1, .eof 1], "ok") := by
+  decide
+example : segsOf (lexAllG k5 #[(98, 1), (120, 1), (120, 1)] 10 10 {} [] []).2.2
+    = [⟨.tok 2, 0, 1⟩, ⟨.pending, 1, 3⟩] := by decide
 
 end Lox.Props.C11
